@@ -152,7 +152,9 @@ def replay(case):
 
 def finalize(acc, tier=None):
     """same sub-oracle + same input failing for BOTH readers = one root cause on the writer's
-    side: merged into a `both:` fingerprint; then superset pruning."""
+    side: merged into a `both:` fingerprint; then superset pruning in which the reader prefix
+    does not count (a case in which only one reader accepted the text is subsumed by the smaller
+    input that fails for both)."""
     for fp in list(acc.viol):
         if fp.startswith("up:"):
             twin = "ai:" + fp[3:]
@@ -160,7 +162,25 @@ def finalize(acc, tier=None):
                 e, t = acc.viol.pop(fp), acc.viol.pop(twin)
                 e["count"] += t["count"]
                 acc.viol["both:" + fp[3:]] = e
-    su.prune_supersets(acc, tier)
+
+    def parse(fp):
+        sub, _, lab = fp.rpartition("|")
+        for pre in ("both:", "up:", "ai:"):
+            if sub.startswith(pre):
+                sub = sub[len(pre):]
+                break
+        return sub, frozenset(lab.split(",")) if lab != "base" else frozenset()
+
+    parsed = {fp: parse(fp) for fp in acc.viol}
+    drop = set()
+    for fp, (sub, labs) in parsed.items():
+        for fp2, (sub2, labs2) in parsed.items():
+            if fp2 != fp and sub2 == sub and labs2 < labs:
+                drop.add(fp)
+                break
+    for fp in drop:
+        acc.c["violations_subsumed"] += acc.viol[fp]["count"]
+        del acc.viol[fp]
 
 
 # ------------------------------------------------------------------------------ one case
